@@ -16,7 +16,7 @@ import itertools
 
 import numpy as np
 
-from .. import c20_nlo, c20_tr
+from .. import c20_nl, c20_nlo, c20_tr
 from ..core import TranslateError, clist, cnat, np_seed
 
 # ------------------------------------------------------------------------------------------- real calls
@@ -372,6 +372,85 @@ def raising_scenarios(ctx, variant, scen, raises, rng):
         ctx.broke('correspondence', f'raises:{name}', f'the model of {func} raises ({what}) but the implementation returns')
 
 
+# ------------------------------------------------------------------------------------------- NonlinearForm bookkeeping
+
+class NLStub:
+    """duck-typed basis with integer-valued fields: the real NonlinearForm._assemble (jax.linearize included) returns
+    exact integers for a quadratic integrand"""
+
+    def __init__(self, N, edofs, tags, dx):
+        from skfem.element import DiscreteField
+        self.N = N
+        self.element_dofs = np.array(edofs, dtype=np.int32)
+        self.Nbfun, self.nelems = self.element_dofs.shape
+        self.dx = np.array(dx, dtype=float)
+        nq = self.dx.shape[1]
+        self.basis = [(DiscreteField(np.array(t, dtype=float)[:, None] * np.ones((self.nelems, nq))),) for t in tags]
+
+    def default_parameters(self):
+        return {}
+
+
+NL_DEFS = '''
+Close Scope Q_scope.
+Definition nth2n (t : list (list nat)) (i e : nat) : nat := nth e (nth i t []) 0%nat.
+Definition nth2q (t : list (list Q)) (i e : nat) : Q := nth e (nth i t []) 0%Q.
+Definition gq (W : list Q) (e : nat) (U V : Q) : Q := (nth e W 0 * (U * U * V + 3 * U * V - 2 * V))%Q.
+Definition Dq (h : Q -> Q) (X0 W : Q) : Q := ((h (X0 + W) - h (X0 - W)) / 2)%Q.
+Definition run_nl (c : nat * nat * list (list nat) * list (list Q) * list Q * list Q) :=
+  let '(Nb, nt, ed, tg, Xs, Ws) := c in
+  let X := fun e => nth e Xs 0%Q in
+  let jl := seq 0 (gen_jac_len Nb nt) in
+  let rl := seq 0 (gen_rhs_len Nb nt) in
+  ((map (@jac_rows Q QOps Q gen_pieces Nb nt (nth2n ed) (nth2q tg) X (gq Ws) Dq) jl,
+    map (@jac_cols Q QOps Q gen_pieces Nb nt (nth2n ed) (nth2q tg) X (gq Ws) Dq) jl,
+    map (@jac_data Q QOps Q gen_pieces Nb nt (nth2n ed) (nth2q tg) X (gq Ws) Dq) jl),
+   (map (@rhs_rows Q QOps Q gen_pieces Nb nt (nth2n ed) (nth2q tg) X (gq Ws) Dq) rl,
+    map (@rhs_data Q QOps Q gen_pieces Nb nt (nth2n ed) (nth2q tg) X (gq Ws) Dq) rl)).
+Definition nl_eqb (a b : (list nat * list nat * list Q) * (list nat * list Q)) : bool :=
+  let '((r1, c1, d1), (rr1, rd1)) := a in let '((r2, c2, d2), (rr2, rd2)) := b in
+  nats_eqb r1 r2 && nats_eqb c1 c2 && qs_eqb d1 d2 && nats_eqb rr1 rr2 && qs_eqb rd1 rd2.
+'''
+
+
+def nonlinear_correspondence(ctx, rng):
+    import jax.numpy as jnp
+    from skfem.autodiff import JaxDiscreteField, NonlinearForm
+    from ..core import cnats
+
+    def form(u, v, w):
+        return u.value * u.value * v.value + 3. * u.value * v.value - 2. * v.value
+    cases = []
+    for c in range(ctx.n(30, 150)):
+        Nb, nt, nq = int(rng.integers(1, 4)), int(rng.integers(1, 4)), int(rng.integers(1, 3))
+        if c == 0:
+            Nb, nt, nq = 3, 2, 2
+        N = int(rng.integers(Nb, 2 * Nb + 3))
+        edofs = rng.integers(0, N, size=(Nb, nt))
+        tags = rng.integers(-3, 4, size=(Nb, nt))
+        dx = rng.integers(1, 4, size=(nt, nq))
+        Xs = rng.integers(-3, 4, size=nt)
+        stub = NLStub(N, edofs, tags, dx)
+        x = (JaxDiscreteField(value=jnp.asarray(Xs.astype(float)[:, None] * np.ones((nt, nq)))),)
+        mat, vec = NonlinearForm(form)._assemble(stub, x=x)
+        if mat[2] != (N, N) or mat[3] != (Nb, Nb) or vec[2] != (N,) or vec[3] != (Nb,):
+            ctx.fail('nonlinear-shapes', 'NonlinearForm._assemble returns wrong shape descriptors',
+                     {'N': N, 'Nbfun': Nb, 'got': [mat[2], mat[3], vec[2], vec[3]]})
+        rows, cols = (np.asarray(a).tolist() for a in mat[0])
+        inp = (f'({cnat(Nb)}, {cnat(nt)}, {clist([cnats(r) for r in edofs.tolist()])}, '
+               f'{clist([clist([q_of(t) for t in r]) for r in tags.tolist()])}, {clist([q_of(v) for v in Xs])}, '
+               f'{clist([q_of(v) for v in dx.sum(1)])})')
+        out = (f'(({cnats(rows)}, {cnats(cols)}, {clist([q_of(v) for v in np.asarray(mat[1])])}), '
+               f'({cnats(np.asarray(vec[0][0]).tolist())}, {clist([q_of(v) for v in np.asarray(vec[1])])}))')
+        cases.append((inp, out, ('nl-stub', Nb, nt, nq, edofs.tolist(), tags.tolist())))
+        ctx.hist('nl_stub_Nbfun', Nb)
+        ctx.hist('nl_stub_cells', nt)
+    ctx.sample({'kind': 'NonlinearForm._assemble on a stub basis', 'input': cases[0][0], 'triplets_of_impl': cases[0][1][:400]})
+    ctx.corr('nonlinear_bookkeeping', 'From Coq Require Import List Arith Bool QArith.\nRequire Import Base.C20_Ring '
+             'Model.C20_Nonlin Gen.C20Gen_nl.', 'run_nl', 'nl_eqb', cases, defs=NL_DEFS,
+             nontrivial=lambda r: r[1] >= 2 and r[2] >= 2)
+
+
 # ------------------------------------------------------------------------------------------- the check
 
 def run(ctx):
@@ -402,15 +481,28 @@ def run(ctx):
     except TranslateError as e:
         ctx.broke('translator', 'c20_tr.generate(helpers.py, autodiff/helpers.py)', e)
         gen_ok = False
+    nl_ok = True
+    try:
+        ctx.write_gen('C20Gen_nl', c20_nl.translate())
+    except TranslateError as e:
+        ctx.broke('translator', 'c20_nl.translate(autodiff/__init__.py: NonlinearForm._assemble)', e)
+        nl_ok = False
     # 2. build + prove
-    if gen_ok:
-        ctx.compile_dyn(['gen/C20Gen_np.v', 'gen/C20Gen_jx.v', 'gen/C20Agree.v'] + ctx.copy_dyn())
+    gens = (['gen/C20Gen_np.v', 'gen/C20Gen_jx.v', 'gen/C20Agree.v'] if gen_ok else []) + (['gen/C20Gen_nl.v'] if nl_ok else [])
+    dyn = ctx.copy_dyn()
+    if not gen_ok:
+        dyn = [d for d in dyn if 'Nonlin' in d]
+    if not nl_ok:
+        dyn = [d for d in dyn if 'Nonlin' not in d]
+    ctx.compile_dyn(gens + dyn)
     ctx.prove()
     # 3. correspondence of the generated terms with the real helpers
     if gen_ok:
         helper_correspondence(ctx, [('np', c20_tr.NP_SCEN), ('jx', c20_tr.JX_SCEN)], meta, rng)
         for v, scen in (('np', c20_tr.NP_SCEN), ('jx', c20_tr.JX_SCEN)):
             raising_scenarios(ctx, v, scen, raises[v], rng)
+    if nl_ok:
+        nonlinear_correspondence(ctx, rng)
     # 4. oracles
     helper_oracle(ctx, rng)
     import warnings
